@@ -4,8 +4,9 @@ cd /verif
 bad=0
 for d in /verif/seeded/C*; do
   id=$(basename $d)
-  if ! git -C /repo apply --check $d/patch.diff 2>/dev/null; then echo "$id: patch does not apply to the current tree"; bad=1; continue; fi
-  git -C /repo apply $d/patch.diff
+  pf=$d/patch.diff; [ -f $d/patch_current.diff ] && pf=$d/patch_current.diff
+  if ! git -C /repo apply --check $pf 2>/dev/null; then echo "$id: patch does not apply to the current tree"; bad=1; continue; fi
+  git -C /repo apply $pf
   out=$(./bin/h2lint -property $id -tier quick 2>&1); rc=$?
   git -C /repo checkout -- .
   rule=$(echo "$out" | grep -m1 '^FAIL' | sed 's/^FAIL rule=\([^ ]*\).*/\1/')
